@@ -54,6 +54,9 @@ type NodeOpts struct {
 	Name  string
 	ID    *m.Address
 	Store config.Store // Router.Address is filled in from ID
+	// Storage, if set, is used as the node's persistent storage (a router that
+	// restarts with the state an earlier incarnation stored).
+	Storage *storage.MemStorage
 	// NoTun leaves the tun device nil and sets System.DisableTun.
 	NoTun bool
 	// StateOnly builds only identity, config, frame builder and state.
@@ -72,7 +75,10 @@ func NewNode(o NodeOpts) (*Node, error) {
 	if err != nil {
 		return nil, err
 	}
-	n := &Node{Name: o.Name, Store: storage.NewMemStorage()}
+	n := &Node{Name: o.Name, Store: o.Storage}
+	if n.Store == nil {
+		n.Store = storage.NewMemStorage()
+	}
 	n.VersionStub = "verif"
 	n.ConfigStub = cfg
 	n.IdentityStub = o.ID
